@@ -35,16 +35,27 @@ def sources(tier, seed, ctx):
             s['leaves'] = [rng.choice(P.LEAVES) for _ in range(rng.randint(1, 4))]
             s['shape'] = rng.choice(P.SHAPES)
             srcs.append(s)
+    # deep circuits: one path longer than the interpreter's recursion limit through every pass
+    for depth in ([1500] if tier == 'quick' else [1500, 4000]):
+        for j, name in enumerate(['RRG', 'MUO', 'MDG', 'MEG', 'cleanup', 'cleanup_heavy']):
+            srcs.append({'k': 'deep', 'depth': depth, 'pass': name, 'rev': bool(j % 2)})
     return srcs
 
 
 def record(src):
+    if src.get('k') == 'deep':
+        from .. import deep
+        return deep.transform_case(PROP, src['pass'], src, lambda c: P.run_pass(src['pass'], c), types=('NOT', 'XOR', 'NOT', 'NOT', 'AND', 'XOR'))
     return P.record_pass(src, PROP)
 
 
 def nontrivial(case):
+    if case['kind'] == 'transformdeep':
+        return True
     return any(g['t'] != 'INPUT' for g in case['pre']['g'].values())
 
 
 def features(case):
+    if case['kind'] == 'transformdeep':
+        return ['deep:' + case['what']]
     return P.pass_features(case)
